@@ -1,5 +1,7 @@
 import Gomjml.Core.Lexer
 import Gomjml.Core.Layout
+import Gomjml.Core.LayoutSpec
+import Gomjml.Core.Leaves
 import Gomjml.Spec.Html
 /-! driver sub-protocols `layout` (Model skeleton of a layout document) and `oracle` (Spec verdicts on real HTML bytes) -/
 open Gomjml
@@ -24,8 +26,60 @@ open Gomjml.Layout
 
 def bit (s : String) (i : Nat) : Bool := (s.toList.getD i '0') == '1'
 
+/-- a leaves word: `-` or items separated by `,`: `t` (mj-text with content), `r` (non-blank mj-raw), `x…` (another content
+    component, see `compOf`) -/
 def leavesOf (w : String) : List Leaf :=
-  if w == "-" then [] else w.toList.filterMap (fun ch => if ch == 't' then some Leaf.text else if ch == 'r' then some Leaf.raw else none)
+  if w == "-" then [] else (w.splitOn ",").filterMap (fun it =>
+    if it == "t" then some Leaf.text else if it == "r" then some Leaf.raw else if it.startsWith "x" then some Leaf.slot else none)
+
+open Gomjml.Leaves in
+/-- `xT<c>` text · `xB<h><c>` button · `xI<h>` image · `xD` divider · `xP` spacer · `xA<rows>.<text>` table ·
+    `xS<v>[:<icon><href><text>]*` social · `xN<hb>:<link bits>` navbar · `xC[:<title><text><left>]*` accordion (title / text:
+    `n` absent, `0` empty, `1` with content) · `xK<thumbs><href bits of the images>` carousel -/
+def compOf (it : String) : Option LeafM :=
+  let cs := it.toList
+  let bitAt := fun (i : Nat) => cs.getD i '0' == '1'
+  match cs.getD 1 ' ' with
+  | 'T' => some (.text (bitAt 2))
+  | 'B' => some (.button (bitAt 2) (bitAt 3))
+  | 'I' => some (.image (bitAt 2))
+  | 'D' => some .divider
+  | 'P' => some .spacer
+  | 'A' =>
+    match ((it.drop 2).toString.splitOn ".") with
+    | [r, tx] => r.toNat?.map (fun n => .table n (tx == "1"))
+    | _ => none
+  | 'S' =>
+    let parts := it.splitOn ":"
+    some (.social (bitAt 2) (parts.tail.map (fun e => ⟨bit e 0, bit e 1, bit e 2⟩)))
+  | 'N' =>
+    match it.splitOn ":" with
+    | [_, ls] => some (.navbar (bitAt 2) (ls.toList.map (· == '1')))
+    | [_] => some (.navbar (bitAt 2) [])
+    | _ => none
+  | 'C' =>
+    let parts := it.splitOn ":"
+    let tri := fun (ch : Char) => if ch == 'n' then none else some (ch == '1')
+    some (.accordion (parts.tail.map (fun e => ⟨tri (e.toList.getD 0 'n'), tri (e.toList.getD 1 'n'), bit e 2⟩)))
+  | 'K' =>
+    match (cs.drop 3).map (· == '1') with
+    | f :: r => some (.carousel (bitAt 2) f r)
+    | [] => none
+  | _ => none
+
+open Gomjml.Leaves in
+/-- what stands in every content slot, in document order (the encoding is a prefix encoding in document order): a component
+    for `x…` items, `keep` for the content tokens the layout model writes itself (text, non-blank raw, section text) -/
+def fillsOf : List String → List LeafM
+  | [] => []
+  | tok :: rest =>
+    let here : List LeafM :=
+      if tok == "r0" || tok == "R0" then [.keep]
+      else if tok.startsWith "S" && bit tok 4 && rest.head? == some ";" then [.keep]
+      else if tok == "t" || tok == "r" || tok.startsWith "x" || (tok.splitOn ",").length > 1 then
+        (tok.splitOn ",").filterMap (fun it => if it == "t" || it == "r" then some .keep else if it.startsWith "x" then compOf it else none)
+      else []
+    here ++ fillsOf rest
 
 /-- parse a column `C<g> <leaves>` from the token list -/
 def pColumn : List String → Option (Column × List String)
@@ -110,8 +164,14 @@ def tokToG : Tok → Gomjml.Spec.GTok
   | .v n => .v n.outlookOnly (showTok.Tag.name' n)
   | .co => .co | .cc => .cc | .t => .t ""
 
-/-- `layout <doc>`: the Model's skeleton, the combined machine's verdict, and the three Spec verdicts on the Model's tokens
-    (the Model is defect-faithful: these are the clauses the implementation is predicted to fail on this document) -/
+def showGM : Gomjml.Spec.GTok → String
+  | .o _ n => n | .c _ n => "/" ++ n
+  | .v _ n => if n == "#text" then "t" else n ++ "!"       -- generated text shows as text in the real skeleton
+  | .co => "co" | .cc => "cc" | .nco => "nco" | .ncc => "ncc" | .t _ => "t"
+
+/-- `layout <doc>`: the Model's skeleton with every content component filled in (`Leaves`, `Expand.expand`), the combined
+    machine's verdict on the layout skeleton, and the three Spec verdicts on the Model's tokens (the Model is defect-faithful:
+    these are the clauses the implementation is predicted to fail on this document) -/
 def layoutHandle (args : List String) : String :=
   match pBlocks (args.length + 2) args with
   | none => "bad-doc"
@@ -120,7 +180,9 @@ def layoutHandle (args : List String) : String :=
     let wf := match run ⟨false, [], []⟩ ts with
       | some s => if s.mso || !s.std.isEmpty || !s.all.isEmpty then "unbalanced" else "ok"
       | none => "reject"
-    let gs := ts.map tokToG
+    let fills := fillsOf args
+    let gs := Gomjml.Expand.expand (fills.map Gomjml.Leaves.LeafM.toks) (ts.map Tok.toG)
+    let slots := (ts.filter (· == Tok.t)).length
     let std := Gomjml.Spec.verdict Gomjml.Spec.stdStep "std:unclosed" gs true
     let mso := Gomjml.Spec.verdict Gomjml.Spec.msoStep "mso:unclosed" gs true
     -- visibility is judged leniently with respect to malformed markers (those are C02's), exactly as on the real bytes
@@ -130,7 +192,9 @@ def layoutHandle (args : List String) : String :=
       | .t _ => if acc.1 == 1 then (acc.1, acc.2 + 1) else acc
       | _ => acc) (0, 0)).2
     let vis := if hiddenT == 0 then "ok" else "content-in-mso"
-    s!"wf={wf} std={std} mso={mso} vis={vis} | " ++ " ".intercalate (ts.map showTok)
+    let fillsOk := if fills.length == slots then "ok" else s!"fills:{fills.length}/slots:{slots}"
+    let cnt := Gomjml.Leaves.cntT gs
+    s!"wf={wf} std={std} mso={mso} vis={vis} fills={fillsOk} content={cnt} | " ++ " ".intercalate (gs.map showGM)
 
 /-! ### oracle on real bytes -/
 open Gomjml.Lexer Gomjml.Spec
